@@ -240,7 +240,15 @@ def main():
     # 3. correspondence
     rng = random.Random(seed * 1000003 + int(prop[1:]))
     tgen = time.time()
-    cases = list(mod.gen(rng, tier))
+    gen_crash = ""
+    try:
+        cases = list(mod.gen(rng, tier))
+    except Exception:
+        # generators may drive the real code (e.g. breadth-first state enumeration); a crash there means the
+        # harness no longer fits the code's behaviour: the correspondence cannot be established
+        gen_crash = traceback.format_exc()[-1500:]
+        cases = []
+        log(f"[{prop}] case generation crashed on the real code:\n{gen_crash}")
     log(f"[{prop}] generated {len(cases)} cases in {time.time()-tgen:.1f}s")
     timpl = time.time()
     impl_out = run_impl(mod, cases)
@@ -299,7 +307,7 @@ def main():
         replay_path = write_replay(prop, {"property": prop, "kind": "oracle", "handler": handler, "line": c2.line,
                                           "data": c2.data, "failure": msgs, "seed": seed, "tier": tier,
                                           "how": f"./check {prop} --replay <this file>"})
-    elif mismatches or proof_broken:
+    elif mismatches or proof_broken or gen_crash:
         # failing-input search: oracle on mismatching cases was already run (they passed); widen
         found = None
         if hasattr(mod, "oracle"):
@@ -325,6 +333,10 @@ def main():
                                 "line": c2.line, "data": c2.data, "implementation": a, "model": b,
                                 "mismatching_cases": len(mismatches),
                                 "note": "model and implementation disagree on this case; the model-free oracle found no input on which the property itself fails"})
+            if gen_crash:
+                payload.update({"correspondence": getattr(mod, "CORRESPONDENCE", handler),
+                                "note": "case generation (which drives the real code) crashed; the correspondence could not be run",
+                                "traceback": gen_crash})
             if proof_broken:
                 payload.update({"theorems_not_checked": undischarged, "failed_modules": failed_modules,
                                 "forbidden": forbidden, "build_log_tail": build_log[-1500:] if not build_ok else "",
@@ -392,7 +404,11 @@ def search(mod, prop, seed, known_active, is_known, budget_s):
         k += 1
         rng = random.Random((seed + 7919 * k) * 1000003 + int(prop[1:]))
         tier = "thorough" if k > 1 else "quick"
-        for c in mod.gen(rng, tier):
+        try:
+            gen_cases = mod.gen(rng, tier)
+        except Exception:
+            return None
+        for c in gen_cases:
             if time.time() - t0 > budget_s:
                 break
             try:
